@@ -479,3 +479,7 @@ mod tests {
         );
     }
 }
+
+#[cfg(all(test, pendulum_project_ntpd_rs_verif))]
+#[path = "/verif/harness/ntpd/config_server.rs"]
+pub(crate) mod verif_hook;
